@@ -24,6 +24,9 @@ func c18Scenarios(tier string) []*natsmc.Scenario {
 		// pre-response can fall between the two
 		{Name: "pre-response-replaced", Scripts: [][]string{{"pre:150", "pre:60000", "reply:A"}}},
 		{Name: "pre-response-elapsed", Scripts: [][]string{{"pre:60000", "pre:100", "reply:A", "reply:B"}}},
+		// a request that the client library refuses to publish (payload above the server's max_payload)
+		// after its reply subscription was made: one completion, nothing left behind
+		{Name: "publish-fails", Scripts: [][]string{{}, {"reply:A"}}, Big: []int{0}, Events: 1},
 		{Name: "events", Scripts: [][]string{{"reply:A"}}, Events: 3, Unsub: true},
 		{Name: "disconnect", Scripts: [][]string{{"reply:A"}, {"pre:60000"}}, Events: 1, Drop: true},
 		{Name: "close", Scripts: [][]string{{"reply:A"}, {"reply:B"}}, Close: true},
